@@ -25,6 +25,7 @@ import (
 
 	"github.com/bloxapp/ssv/message/validation"
 	"github.com/bloxapp/ssv/network/commons"
+	"github.com/bloxapp/ssv/network/peers"
 	"github.com/bloxapp/ssv/network/records"
 	"github.com/bloxapp/ssv/protocol/v2/ssv/queue"
 	"github.com/bloxapp/ssv/zz_verif/lib/hx"
@@ -536,10 +537,16 @@ func runFuzzTarget(run *hx.Run, target string, b []byte) {
 				return
 			}
 			all, _ := records.Subnets{}.FromString(records.AllSubnets)
+			mine := make(records.Subnets, 128) // a node that is subscribed to subnet 100 only
+			mine[100] = 1
 			_ = records.DiffSubnets(all, s)
 			_ = records.DiffSubnets(s, all)
-			_ = records.SharedSubnets(all, s, 1)
-			_ = records.SharedSubnets(s, all, 1)
+			_ = records.SharedSubnets(all, s, 1)  // network/peers/connections/conn_handler.go sharesEnoughSubnets(mySubnets, peerSubnets, 1)
+			_ = records.SharedSubnets(mine, s, 1) // the same for a node with few subnets
+			_ = records.SharedSubnets(s, all, len(all)) // network/peers/conn_manager.go (peerSubnets, mySubnets, len(mySubnets))
+			if len(s) != 0 {
+				_ = peers.VerifScorePeer(s, all) // network/peers/conn_manager.go getBestPeers -> scorePeer(peerSubnets, scores)
+			}
 		})
 	}
 }
@@ -593,7 +600,7 @@ func fuzzSeeds(run *hx.Run, r *hx.Rng) map[string][][]byte {
 			seeds["nodeinfo"] = append(seeds["nodeinfo"], sealed)
 		}
 	}
-	for _, s := range []string{records.AllSubnets, records.ZeroSubnets, "0x" + records.AllSubnets, "ff", "f", "", "0x", "zz", "ffffffffffffffffffffffffffffffff00"} {
+	for _, s := range []string{records.AllSubnets, records.ZeroSubnets, "0x" + records.AllSubnets, "ff", "00", "f", "", "0x", "zz", "ffffffffffffffffffffffffffffffff00"} {
 		seeds["subnets"] = append(seeds["subnets"], []byte(s))
 		seeds["subnets-use"] = append(seeds["subnets-use"], []byte(s))
 	}
